@@ -5,6 +5,7 @@ import PsV.Driver.C19
 import PsV.Driver.Eval
 import PsV.Driver.C15
 import PsV.Driver.C12
+import PsV.Driver.C14
 open PsV.Driver
 
 def stateless (f : List String → String) : IO Unit := do
@@ -16,7 +17,8 @@ def drivers : List (String × IO Unit) :=
    ("C16", C16.run),
    ("C15", stateless C15.handle),
    ("C12", C12.run),
-   ("C19", stateless C19.handle)]
+   ("C19", stateless C19.handle),
+   ("C14", C14.run)]
 
 def main (args : List String) : IO UInt32 := do
   match args with
